@@ -82,10 +82,18 @@ pub fn c02_race2() {
     let d1 = n.dbs.clone(); let d2 = n.dbs.clone();
     let (mut c1, _rx1) = db_client(&n.dbs, "d"); let (mut c2, _rx2) = db_client(&n.dbs, "d");
     quiet_client(&c1); quiet_client(&c2); quiet_node(&n.dbs);
-    let t1 = vsym::spawn(move || run_op(&d1, &mut c1, a, cur, "a"));
-    let t2 = vsym::spawn(move || run_op(&d2, &mut c2, b, cur, "b"));
-    let ra = vsym::join(t1); let rb = vsym::join(t2);
+    let t1 = vsym::spawn(move || { let r = run_op(&d1, &mut c1, a, cur, "a"); (r, if a == 2 { read_pair(&d1, &mut c1) } else { None }) });
+    let t2 = vsym::spawn(move || { let r = run_op(&d2, &mut c2, b, cur, "b"); (r, if b == 2 { read_pair(&d2, &mut c2) } else { None }) });
+    let (ra, pa) = vsym::join(t1); let (rb, pb) = vsym::join(t2);
     let fin = peek(&n.dbs, "d", "k").unwrap();
+    // a get-safe answers a (value, version) pair the key really had at some moment: with one concurrent writer that is the pair
+    // before or the pair after its write - never the value of one and the version of the other
+    for p in [pa, pb].iter() {
+        if let Some((v, ver)) = p {
+            vsym::check("race.get-safe-pair-existed", (v == "5" && *ver == cur) || (*v == fin.value && *ver == fin.version));
+            vsym::cover("race.get-safe-read", true);
+        }
+    }
     // two writers presenting the same base version never both succeed
     if a == 0 && b == 0 { vsym::check("race.same-base-one-winner", !(ra && rb)); vsym::cover("race.one-winner", ra != rb); }
     // linearizability against the two sequential orders of the reference map
@@ -101,6 +109,10 @@ fn run_op(dbs: &vstd::sync::Arc<Databases>, c: &mut Client, op: usize, cur: i32,
     else if op == 1 { is_ok(&process_request(&["set k ", tag].concat(), dbs, c)) }
     else if op == 3 { is_ok(&process_request("increment k", dbs, c)) }
     else { match process_request("get-safe k", dbs, c) { Response::Value { .. } => true, _ => false } }
+}
+/// a second get-safe by the same client: the (value, version) pair it is answered
+fn read_pair(dbs: &vstd::sync::Arc<Databases>, c: &mut Client) -> Option<(String, i32)> {
+    match process_request("get-safe k", dbs, c) { Response::Value { key: _, value, version } => Some((value, version)), _ => None }
 }
 /// reference map: run A then B (a_first) or B then A; returns (okA, okB, final value, final version)
 fn seq_model(a: usize, b: usize, cur: i32, a_first: bool) -> (bool, bool, String, i32) {
